@@ -13,7 +13,9 @@
    handle whose directory has been removed gives ENOENT.  Context checks are no-ops (contexts are never
    cancelled inside the scheduled part of a scenario) except for the cancel store of LockWithTimeout (see
    [try_lock]).  Staleness: the verdict "the modification time just read is older than two heartbeat periods"
-   (lockfile.go:115 isStale) is an INPUT of every step (part of the schedule), not a function of a clock. *)
+   (lockfile.go:115 isStale) is an INPUT of every step (part of the schedule), not a function of a clock; the harness
+   presents a modification time of a chosen logical age and lets the library's arithmetic decide, the verdict of the
+   case being "age > 100 ms".  The firing of a LockWithTimeout deadline is an input as well ([IDeadline], [Chk]). *)
 From Coq Require Import List Bool Arith.
 Import ListNotations.
 
